@@ -25,5 +25,6 @@ RecOK == ri > 0 =>
            ELSE /\ Ok(Cardinality({r.ids[j] : j \in 1..Len(r.ids)}) = Len(r.ids), "noise.distinct_per_member")
                 /\ Ok(\A j \in 1..Len(r.neg_ok) : r.neg_ok[j] = 1, "flip.second_pass_uses_negated_noise")
                 /\ Ok(\A j \in 1..Len(r.nonzero) : r.nonzero[j] = 1, "noise.actually_added")
+                /\ Is(r.uncorrelated, 1, "noise.realisations_independent_of_each_other")
         /\ Is(r.mean_ok, 1, "result.is_mean_over_members"))
 =============================================================================
